@@ -153,7 +153,7 @@ func TestVerif_C32(t *testing.T) {
 		styp := []streamType{bidiStream, uniStream}[c.Rng.IntN(2)]
 		id := newStreamID(side.peer(), styp, 0)
 		have := int64(c.Rng.IntN(900)) // bytes [0,have) delivered first
-		mode := c.Rng.IntN(8)
+		mode := c.Rng.IntN(11)
 		code := uint64(1 + c.Rng.IntN(1<<20))
 		c.Describe(map[string]any{"side": fmt.Sprint(side), "type": fmt.Sprint(styp), "have": have, "mode": mode, "code": code})
 		synctest.Test(t, func(t *testing.T) {
@@ -202,6 +202,29 @@ func TestVerif_C32(t *testing.T) {
 			case 5: // RESET then data beyond its final size
 				reset(have + 10)
 				data(have+10, 1, false)
+				wantErr, want = true, errFinalSize
+			case 8: // RESET, then a second RESET that states a different final size (smaller, larger, below received data)
+				f1 := have + int64(c.Rng.IntN(200))
+				reset(f1)
+				f2 := f1 + 1 + int64(c.Rng.IntN(30))
+				if f1 > 0 && c.Rng.IntN(2) == 0 {
+					f2 = c.Rng.Int64N(f1)
+				}
+				reset(f2)
+				wantErr, want = true, errFinalSize
+			case 9: // RESET, then a FIN at a different offset
+				f1 := have + 1 + int64(c.Rng.IntN(200))
+				reset(f1)
+				if c.Rng.IntN(2) == 0 {
+					data(have, 0, true) // FIN below the final size the RESET stated
+				} else {
+					data(f1, 1+int64(c.Rng.IntN(9)), true) // data and FIN beyond it
+				}
+				wantErr, want = true, errFinalSize
+			case 10: // RESET, then STREAM data that ends beyond the final size but starts inside it
+				f1 := have + int64(c.Rng.IntN(50))
+				reset(f1)
+				data(have, f1-have+1+int64(c.Rng.IntN(20)), false)
 				wantErr, want = true, errFinalSize
 			case 6: // consistent: data, RESET with final size == received (no FIN): Read must fail with the code
 				reset(have)
